@@ -433,6 +433,8 @@ pub fn execute(h: &History, want: &str, rep: &mut Report) -> Option<Violation> {
     let mut n_bytes = 0u64;
     let mut n_msgs = 0u64;
     let mut since_change_r = 0u8; // messages since the rising latch was last set (class only)
+    let mut observed_gate_mode = false;
+    let mut gate_seen = false; // gate() as read after the previous byte
     for (i, op) in h.ops.iter().enumerate() {
         match op {
             Op::Byte(b) => {
@@ -444,13 +446,35 @@ pub fn execute(h: &History, want: &str, rep: &mut Report) -> Option<Violation> {
                     Some(msg) => {
                         n_msgs += 1;
                         let held_before = rf.held.len();
-                        let e = rf.apply(msg);
-                        if rf.overflowed {
-                            // a 33rd outstanding note-on: outside the stated range of the properties
-                            rep.count("midi.history_truncated_at_33rd_note_on", 1);
-                            break;
+                        let e = if observed_gate_mode { Effect::None } else { rf.apply(msg) };
+                        if rf.overflowed && !observed_gate_mode {
+                            // a 33rd outstanding note-on: outside the stated range of C04 (and of the list-based reference)
+                            rep.count("midi.reference_list_left_at_33rd_note_on", 1);
+                            if want != "C05" {
+                                break;
+                            }
+                            // C05 is stated in terms of gate() itself and has no such limit: from here on the edge
+                            // latches are judged against the gate transitions the implementation itself reports
+                            observed_gate_mode = true;
                         }
-                        rep.class(("msg", e, held_before.min(33) as u8 / 4, rf.priority, rf.retrigger));
+                        if observed_gate_mode {
+                            let gate_after = call!(m.gate(), i);
+                            let own = msg.status & 0x0F == rf.channel;
+                            if own && msg.status & 0xF0 == 0x90 && msg.d2 > 0 {
+                                rf.falling = false;
+                                if (!gate_seen && gate_after) || rf.retrigger {
+                                    rf.rising = true;
+                                }
+                                rep.count("midi.c05.observed_gate_mode.note_on", 1);
+                            }
+                            if gate_seen && !gate_after {
+                                rf.falling = true;
+                                rf.rising = false;
+                                rep.count("midi.c05.observed_gate_mode.gate_drop", 1);
+                            }
+                            rf.out.gate = gate_after;
+                        }
+                        rep.class(("msg", e, held_before.min(33) as u8 / 4, rf.priority, rf.retrigger, observed_gate_mode));
                         e
                     }
                     None => Effect::None,
@@ -459,6 +483,10 @@ pub fn execute(h: &History, want: &str, rep: &mut Report) -> Option<Violation> {
                 since_change_r = since_change_r.saturating_add(1);
                 rep.class(("byte", cls.0, cls.1));
                 let got = call!(read_out(&m), i);
+                gate_seen = got.gate;
+                if observed_gate_mode {
+                    continue;
+                }
                 if let Some((name, group, g, w)) = diff(&got, &rf.out) {
                     let (prop, ok) = match want {
                         "C04" => ("C04", group == 'n'),
@@ -598,6 +626,11 @@ impl Emit {
 
 /// message-level note traffic on the listened channel (C04, C05)
 pub fn gen_notes(r: &mut Rng, n_msgs: usize, poll_rate: f64, strict_polls: bool) -> History {
+    gen_notes_x(r, n_msgs, poll_rate, strict_polls, false)
+}
+
+/// `allow_overflow`: do not keep the stream within 32 outstanding note-ons (C05 has no such limit)
+pub fn gen_notes_x(r: &mut Rng, n_msgs: usize, poll_rate: f64, strict_polls: bool, allow_overflow: bool) -> History {
     let channel_arg: u8 = if r.chance(0.15) { 16 + r.below(240) as u8 } else { r.below(16) as u8 };
     let ch = channel_arg.min(15);
     let pool_size = *r.pick(&[1usize, 2, 3, 3, 12, 12, 128]);
@@ -605,7 +638,7 @@ pub fn gen_notes(r: &mut Rng, n_msgs: usize, poll_rate: f64, strict_polls: bool)
     let mut e = Emit::new();
     let mut outstanding: Vec<u8> = Vec::new(); // generator-side count keeps the stream within 32 outstanding note-ons
     let p_running = r.unit();
-    let p_on = 0.35 + 0.4 * r.unit();
+    let p_on = if allow_overflow { 0.75 + 0.2 * r.unit() } else { 0.35 + 0.4 * r.unit() };
     for _ in 0..n_msgs {
         let note = base + r.below(pool_size as u64) as u8;
         let k = r.unit();
@@ -619,7 +652,7 @@ pub fn gen_notes(r: &mut Rng, n_msgs: usize, poll_rate: f64, strict_polls: bool)
             e.msg(0xB0 | ch, &[123, v], r.chance(p_running));
             outstanding.clear();
         } else if k < 0.11 + p_on * 0.89 {
-            if outstanding.len() < 32 {
+            if outstanding.len() < 32 || allow_overflow {
                 let vel = 1 + r.below(127) as u8;
                 e.msg(0x90 | ch, &[note, vel], r.chance(p_running));
                 outstanding.push(note);
@@ -937,7 +970,7 @@ pub fn run(ctx: &Ctx, prop: &str) -> Report {
                     let n = if small { 60 } else { 50 + r.below(600) as usize };
                     let strict = prop == "C05" && j % 3 == 0;
                     let rate = if prop == "C05" { *r.pick(&[0.05, 0.2, 0.5, 0.9]) } else { 0.05 };
-                    let h = gen_notes(&mut r, n, rate, strict);
+                    let h = gen_notes_x(&mut r, n, rate, strict, prop == "C05" && j % 4 == 1);
                     run_and_record(&h, prop, &mut rep, s == 0 && j < 3);
                 }
                 rep
@@ -948,6 +981,8 @@ pub fn run(ctx: &Ctx, prop: &str) -> Report {
                     rep.floor(&format!("midi.effect.{}", e), 200);
                 }
                 if prop == "C05" {
+                    rep.floor("midi.c05.observed_gate_mode.note_on", 200);
+                    rep.floor("midi.c05.observed_gate_mode.gate_drop", 50);
                     for k in ["rising.true", "rising.false", "falling.true", "falling.false"] {
                         rep.floor(&format!("midi.poll.{}", k), 200);
                     }
